@@ -196,8 +196,9 @@ static void forms_one(const std::array<uint64_t, N> & ext)
         prod *= ext[k];
     }
     static const char * const form_names[] = {"temporary closure owning its state", "named closure", "moved closure", "std::function lvalue",
-                                              "std::function temporary", "functor object", "temporary functor", "const std::function"};
-    for (int form = 0; form < 8; ++form) {
+                                              "std::function temporary", "functor object", "temporary functor", "const std::function",
+                                              "closure returning bool (false)", "closure returning int (0)", "closure returning a null pointer", "closure returning a running count"};
+    for (int form = 0; form < 12; ++form) {
         vh::set_case("%s extents=%s form=%s", name.c_str(), vh::jarr(ext, N).c_str(), form_names[form]);
         auto log = std::make_shared<std::vector<std::array<uint64_t, N>>>();
         uint64_t lost = 0;
@@ -242,6 +243,21 @@ static void forms_one(const std::array<uint64_t, N> & ext)
         case 7: {
             const std::function<void(tuple_t)> fn = make();
             covfie::utility::nd_map<tuple_t>(fn, s);
+            break;
+        }
+        // a callback may return something; nd_map promises a visit per tuple whatever that is
+        case 8:
+            covfie::utility::nd_map<tuple_t>([cb = make()](tuple_t t) mutable -> bool { cb(t); return false; }, s);
+            break;
+        case 9:
+            covfie::utility::nd_map<tuple_t>([cb = make()](tuple_t t) mutable -> int { cb(t); return 0; }, s);
+            break;
+        case 10:
+            covfie::utility::nd_map<tuple_t>([cb = make()](tuple_t t) mutable -> const void * { cb(t); return nullptr; }, s);
+            break;
+        case 11: {
+            auto cb = [inner = make(), n = std::size_t(0)](tuple_t t) mutable -> std::size_t { inner(t); return n++ % 3; };
+            covfie::utility::nd_map<tuple_t>(cb, s);
             break;
         }
         }
